@@ -18,8 +18,7 @@ SCEN = {
         "host-interrupt x interpreter": sc([[U, U, U, U]], 24, []),
         "host-interrupt x interpreter x collect": sc([[U, U, U, U], [G]], 40, [], "interrupt", OW),
         "host-interrupt x interpreter x collect [overwrite excluded]": sc([[U, U, U, U], [G]], 40, ["interrupt-overwrite"], "interrupt", OW),
-        "host-interrupt x primitive-call: target never stuck": sc([[P, U]], 24, [], "lasso", "interrupt-mid"),
-        "host-interrupt x primitive-call: target never stuck [two-store window excluded]": sc([[P, U]], 24, ["interrupt-mid"], "lasso", "interrupt-mid"),
+        "host-interrupt x primitive-call: target never stuck": sc([[P, U]], 24, [], "lasso"),
     },
     "thorough": {
         "host-interrupt x interpreter": sc([[U, U, U, U, U]], 30, []),
@@ -27,17 +26,18 @@ SCEN = {
         "host-interrupt x interpreter x collect [overwrite excluded]": sc([[U, U, U, U], [G]], 46, ["interrupt-overwrite"], "interrupt", OW),
         "host-interrupt x interpreter x assign-global [overwrite excluded]": sc([[U, U, U, U], [S]], 46, ["interrupt-overwrite"], "interrupt", OW),
         "host-interrupt x interpreter(primitive calls)": sc([[P, P, U, U]], 34, []),
-        "host-interrupt x primitive-call: target never stuck": sc([[P, U]], 24, [], "lasso", "interrupt-mid"),
-        "host-interrupt x primitive-calls: target never stuck [two-store window excluded]": sc([[P, P, U]], 32, ["interrupt-mid"], "lasso", "interrupt-mid"),
+        "host-interrupt x primitive-call: target never stuck": sc([[P, U]], 24, [], "lasso"),
+        "host-interrupt x primitive-calls: target never stuck": sc([[P, P, U]], 32, [], "lasso"),
     },
 }
 
 
 def _replay(r):
     if "never stuck" in r["name"]:
-        # unblocked: the listed two-store window (forced through hook INTERRUPT_MID); blocked twin:
-        # anything else that leaves the target parked after a completed interrupt()
-        return ("interrupt_hang", {}) if r["block"] else ("interrupt_between_stores", {})
+        # first the plain run (interrupt() completes while the target is inside a primitive); if the
+        # hang needs the target to act between the two stores of interrupt(), the host is held
+        # there through hook INTERRUPT_MID
+        return [("interrupt_hang", {}), ("interrupt_between_stores", {})]
     return "interrupt_lost", {}
 
 
